@@ -32,7 +32,8 @@ DaysInMonth(y, m) ==
     IF m \in {1, 3, 5, 7, 8, 10, 12} THEN 31
     ELSE IF m = 2 THEN (IF IsLeap(y) THEN 29 ELSE 28) ELSE 30
 
-ValidCivil(y, m, d) == y \in 1..9999 /\ m \in 1..12 /\ d \in 1..DaysInMonth(y, m)
+\* (year 0000 can be written with four digits: it is the local year of instants of 0001-01-01 at negative offsets)
+ValidCivil(y, m, d) == y \in 0..9999 /\ m \in 1..12 /\ d \in 1..DaysInMonth(y, m)
 
 \* whole years before year y: 365 days each plus one per leap year
 DaysBeforeYear(y) == LET p == y - 1 IN 365 * p + p \div 4 - p \div 100 + p \div 400
@@ -72,9 +73,14 @@ Shift(i, k) ==
 
 LocalOf(i, off) == Shift(i, off)
 
-InDomain(i, off) ==
-    /\ i.day \in 0..MaxDay /\ i.sod \in 0..86399 /\ off \in -MaxOff..MaxOff
-    /\ LocalOf(i, off).day \in 0..MaxDay      \* the local date has a year in 0001..9999 too
+\* the statement's quantifier: the INSTANT lies in years 0001..9999 (an instant has no zone: its UTC date), any offset
+InDomain(i, off) == i.day \in 0..MaxDay /\ i.sod \in 0..86399 /\ off \in -MaxOff..MaxOff
+
+\* D:YYYY... has four year digits: the wall clock of (i, off) can be written iff its year is 0000..9999.  In the domain
+\* the only pairs that cannot are instants of the last 23:59 of year 9999 at an offset that carries them into year
+\* 10000.  For those no PDF date string denotes (i, off); the most a conversion can do is keep the instant.
+MinDay == -366               \* 0000-01-01
+Expressible(i, off) == LocalOf(i, off).day \in MinDay..MaxDay
 
 D2(n) == <<48 + (n \div 10), 48 + (n % 10)>>
 D4(n) == <<48 + (n \div 1000), 48 + ((n \div 100) % 10), 48 + ((n \div 10) % 10), 48 + (n % 10)>>
@@ -141,7 +147,7 @@ Parse(s) ==
 OffClass(off) == IF off = 0 THEN "zero"
                  ELSE IF off > 0 THEN (IF off < 60 THEN "possub" ELSE "pos")
                  ELSE IF off > -60 THEN "negsub" ELSE "neg"
-YearClass(day) == IF day < 0 \/ day > MaxDay THEN "yout"
+YearClass(day) == IF day > MaxDay THEN "y10000" ELSE IF day < MinDay THEN "yout" ELSE IF day < 0 THEN "y0000"
                   ELSE IF CivilFromDays(day).y < 1000 THEN "ylt1000" ELSE "y4"
 
 -----------------------------------------------------------------------------
@@ -189,9 +195,14 @@ LocalString(z, i) == Fmt(i, ZoneOffset(z, i))
 Backends == {"chrono", "jiff", "time"}
 
 \* date.format("D:%Y%m%d%H%M%S%:z'")  ->  D:YYYYMMDDHHMMSS+HH:MM'
+\* chrono's %Y: four digits for years 0..9999, otherwise a sign and as many digits as needed
+ImplDateDigits(w) ==
+    LET c == CivilFromDays(w.day)
+    IN (IF c.y <= 9999 THEN D4(c.y) ELSE <<cPlus, 48 + (c.y \div 10000)>> \o D4(c.y % 10000)) \o D2(c.m) \o D2(c.d)
+
 ImplRawFmt(i, off) ==
     LET w == LocalOf(i, off)
-    IN <<cD, cColon>> \o DateDigits(w) \o HMS(w) \o <<IF off < 0 THEN cMinus ELSE cPlus>>
+    IN <<cD, cColon>> \o ImplDateDigits(w) \o HMS(w) \o <<IF off < 0 THEN cMinus ELSE cPlus>>
        \o D2(Abs(off) \div 60) \o <<cColon>> \o D2(Abs(off) % 60) \o <<cApos>>
 
 \* convert_utc_offset, function form: the last ':' becomes an apostrophe
@@ -205,6 +216,11 @@ ImplFmtTime(i, off) ==
 
 ImplFmt(b, i, off) == IF b = "time" THEN ImplFmtTime(i, off) ELSE ImplConvert(ImplRawFmt(i, off))
 ImplFmtUtc(i) == <<cD, cColon>> \o DateDigits(i) \o HMS(i) \o <<cZ>>
+
+\* From<DateTime<Local>>.  dev_y10k = TRUE: the code as it is (no guard: a local year 10000 is written "+10000");
+\* FALSE: the proposed repair (a wall clock outside 0000..9999 is written as the same instant in UTC, +00'00').
+ImplFmtChronoLocal(i, off, dev_y10k) ==
+    IF ~dev_y10k /\ ~Expressible(i, off) THEN ImplConvert(ImplRawFmt(i, 0)) ELSE ImplConvert(ImplRawFmt(i, off))
 
 \* Object::datetime_string: drop every 'D', ':' and apostrophe
 Strip(s) == SelectSeq(s, LAMBDA c : c \notin {cD, cColon, cApos})
@@ -254,13 +270,22 @@ RunFormat(f, t, zulu) ==
             IN [ok |-> TRUE, day |-> i.day, sod |-> i.sod, off |-> r.off]
        ELSE ImplFail
 
+\* The environment: jiff turns a civil date-time into a Zoned by a zone NAME.  "UTC" is answered by jiff itself;
+\* "GMT" (date-only attempt, dev_gmt = TRUE: the code as it is) is looked up in the host's time zone database and
+\* fails when that has no such entry (hasGMT = FALSE).  dev_gmt = FALSE: the proposed repair (in_tz("UTC")).
+NeedsGMT(b, f, dev_gmt) == dev_gmt /\ b = "jiff" /\ f = F_date
+RunAttempt(b, f, t, dev_gmt, hasGMT) ==
+    IF NeedsGMT(b, f, dev_gmt) /\ ~hasGMT THEN ImplFail ELSE RunFormat(f, t, b = "chrono")
+
 \* as_datetime().try_into(), function form: first attempt that succeeds
-ImplParse(b, s, dev_h41) ==
+ImplParseEnv(b, s, dev_h41, dev_gmt, hasGMT) ==
     LET t  == Strip(s)
         as == Attempts(b, dev_h41)
-        rs == [k \in 1..Len(as) |-> RunFormat(as[k], t, b = "chrono")]
+        rs == [k \in 1..Len(as) |-> RunAttempt(b, as[k], t, dev_gmt, hasGMT)]
         oks == {k \in 1..Len(as) : rs[k].ok}
     IN IF oks = {} THEN ImplFail ELSE rs[CHOOSE k \in oks : \A j \in oks : k <= j]
+
+ImplParse(b, s, dev_h41) == ImplParseEnv(b, s, dev_h41, FALSE, TRUE)
 
 \* From<DateTime<Local>> for Object inside one process: `cache` is what earlier calls left behind (<<>> = nothing).
 \* As the code is there is no such state.  dev_cache transcribes the seeded design "the +HH'mm' suffix of the local
